@@ -16,7 +16,9 @@ import (
 	"github.com/sirupsen/logrus"
 
 	sqle "github.com/dolthub/go-mysql-server"
+	"github.com/dolthub/go-mysql-server/memory"
 	"github.com/dolthub/go-mysql-server/sql"
+	"github.com/dolthub/go-mysql-server/sql/types"
 	"github.com/dolthub/go-mysql-server/sql/variables"
 	"github.com/dolthub/go-mysql-server/verifharness/hx"
 )
@@ -231,23 +233,383 @@ func extract(a hx.ExtractArgs) error {
 	}
 	b.WriteString("]\n")
 	lf.Raw(b.String())
+
+	// the SQL layer: which calls a KILL statement of each type makes, what the planbuilder turns the
+	// parser's Kill.Connection flag into, and what the engine's tracked iterator does when it is closed
+	if err := extractSQLLayer(a, lf); err != nil {
+		return err
+	}
 	return lf.Write(a.Out)
+}
+
+// killStmtEval walks the statements executed by the body of rowexec's buildKill iterator for one
+// concrete kill type and records, in order, the calls of ctx.ProcessList.<M> and ctx.KillConnection.
+// Understood shapes: call statements, `if n.Kt ==/!= plan.KillType_X {…} else {…}`,
+// `switch n.Kt { case plan.KillType_X: … default: … }`, `if err := <call>; err != nil { return … }`,
+// `return`. Anything else that contains one of the calls is an error (the shape the model
+// transliterates is gone).
+type killStmtEval struct {
+	src   *hx.Src
+	kt    string // "Query" | "Connection"
+	calls []string
+}
+
+func relevantCall(e ast.Expr) (string, bool) {
+	ce, ok := e.(*ast.CallExpr)
+	if !ok {
+		return "", false
+	}
+	fn := selText(ce.Fun)
+	switch {
+	case strings.HasPrefix(fn, "ctx.ProcessList."):
+		return "ProcessList." + strings.TrimPrefix(fn, "ctx.ProcessList."), true
+	case fn == "ctx.KillConnection":
+		return "KillConnection", true
+	}
+	return "", false
+}
+
+func containsRelevantCall(n ast.Node) bool {
+	found := false
+	if n == nil {
+		return false
+	}
+	ast.Inspect(n, func(x ast.Node) bool {
+		if e, ok := x.(ast.Expr); ok {
+			if _, ok := relevantCall(e); ok {
+				found = true
+			}
+		}
+		return !found
+	})
+	return found
+}
+
+// ktCond evaluates `n.Kt == plan.KillType_X` / `n.Kt != plan.KillType_X` for the evaluator's type.
+func (k *killStmtEval) ktCond(e ast.Expr) (val bool, ok bool) {
+	be, isBin := e.(*ast.BinaryExpr)
+	if !isBin || (be.Op != token.EQL && be.Op != token.NEQ) {
+		return false, false
+	}
+	l, r := selText(be.X), selText(be.Y)
+	if r == "n.Kt" {
+		l, r = r, l
+	}
+	if l != "n.Kt" || !strings.HasPrefix(r, "plan.KillType_") {
+		return false, false
+	}
+	eq := strings.TrimPrefix(r, "plan.KillType_") == k.kt
+	if be.Op == token.NEQ {
+		eq = !eq
+	}
+	return eq, true
+}
+
+// stmts returns true when a return statement was executed.
+func (k *killStmtEval) stmts(list []ast.Stmt) (bool, error) {
+	for _, st := range list {
+		switch t := st.(type) {
+		case *ast.ExprStmt:
+			if name, ok := relevantCall(t.X); ok {
+				k.calls = append(k.calls, name)
+			} else if containsRelevantCall(t) {
+				return false, fmt.Errorf("buildKill: call nested in %q", k.src.Text(t))
+			}
+		case *ast.AssignStmt:
+			if len(t.Rhs) == 1 {
+				if name, ok := relevantCall(t.Rhs[0]); ok {
+					k.calls = append(k.calls, name)
+					continue
+				}
+			}
+			if containsRelevantCall(t) {
+				return false, fmt.Errorf("buildKill: call nested in %q", k.src.Text(t))
+			}
+		case *ast.ReturnStmt:
+			if containsRelevantCall(t) {
+				return false, fmt.Errorf("buildKill: call nested in %q", k.src.Text(t))
+			}
+			return true, nil
+		case *ast.BlockStmt:
+			if ret, err := k.stmts(t.List); err != nil || ret {
+				return ret, err
+			}
+		case *ast.IfStmt:
+			if t.Init != nil {
+				if ret, err := k.stmts([]ast.Stmt{t.Init}); err != nil || ret {
+					return ret, err
+				}
+			}
+			if v, ok := k.ktCond(t.Cond); ok {
+				var br ast.Stmt = t.Body
+				if !v {
+					br = t.Else
+				}
+				if br != nil {
+					if ret, err := k.stmts([]ast.Stmt{br}); err != nil || ret {
+						return ret, err
+					}
+				}
+				continue
+			}
+			// a condition that is not about the kill type (error check): its branches must not make the calls
+			if containsRelevantCall(t.Cond) || containsRelevantCall(t.Body) || containsRelevantCall(t.Else) {
+				return false, fmt.Errorf("buildKill: a ProcessList/KillConnection call depends on %q", k.src.Text(t.Cond))
+			}
+		case *ast.SwitchStmt:
+			if t.Init != nil || t.Tag == nil || selText(t.Tag) != "n.Kt" {
+				if containsRelevantCall(t) {
+					return false, fmt.Errorf("buildKill: a ProcessList/KillConnection call inside a switch that is not on n.Kt")
+				}
+				continue
+			}
+			var chosen, def *ast.CaseClause
+			for _, cs := range t.Body.List {
+				cc := cs.(*ast.CaseClause)
+				if cc.List == nil {
+					def = cc
+					continue
+				}
+				for _, x := range cc.List {
+					name := selText(x)
+					if !strings.HasPrefix(name, "plan.KillType_") {
+						return false, fmt.Errorf("buildKill: switch case %q", k.src.Text(x))
+					}
+					if strings.TrimPrefix(name, "plan.KillType_") == k.kt && chosen == nil {
+						chosen = cc
+					}
+				}
+			}
+			if chosen == nil {
+				chosen = def
+			}
+			if chosen != nil {
+				for _, b := range chosen.Body {
+					if bs, ok := b.(*ast.BranchStmt); ok && bs.Tok == token.FALLTHROUGH {
+						return false, fmt.Errorf("buildKill: fallthrough")
+					}
+				}
+				if ret, err := k.stmts(chosen.Body); err != nil || ret {
+					return ret, err
+				}
+			}
+		default:
+			if containsRelevantCall(st) {
+				return false, fmt.Errorf("buildKill: a ProcessList/KillConnection call inside %T", st)
+			}
+		}
+	}
+	return false, nil
+}
+
+func leanStrList(xs []string) string {
+	q := make([]string, len(xs))
+	for i, x := range xs {
+		q[i] = hx.LeanString(x)
+	}
+	return "[" + strings.Join(q, ", ") + "]"
+}
+
+func extractSQLLayer(a hx.ExtractArgs, lf *hx.LeanFile) error {
+	// kill types
+	ks, err := hx.ParseSrc(a.Repo, "sql/plan/kill.go")
+	if err != nil {
+		return err
+	}
+	var kts []string
+	for _, d := range ks.File.Decls {
+		gd, ok := d.(*ast.GenDecl)
+		if !ok || gd.Tok != token.CONST {
+			continue
+		}
+		for _, sp := range gd.Specs {
+			for _, n := range sp.(*ast.ValueSpec).Names {
+				if strings.HasPrefix(n.Name, "KillType_") {
+					kts = append(kts, strings.TrimPrefix(n.Name, "KillType_"))
+				}
+			}
+		}
+	}
+	sort.Strings(kts)
+	if len(kts) == 0 {
+		return fmt.Errorf("no KillType_ constants in sql/plan/kill.go")
+	}
+	// rowexec: buildKill
+	ts, err := hx.ParseSrc(a.Repo, "sql/rowexec/transaction.go")
+	if err != nil {
+		return err
+	}
+	fd, err := ts.Func("BaseBuilder", "buildKill")
+	if err != nil {
+		return err
+	}
+	var lits []*ast.FuncLit
+	ast.Inspect(fd.Body, func(n ast.Node) bool {
+		if fl, ok := n.(*ast.FuncLit); ok {
+			lits = append(lits, fl)
+			return false
+		}
+		return true
+	})
+	if len(lits) != 1 {
+		return fmt.Errorf("rowexec buildKill: expected one function literal (the lazy iterator body), found %d", len(lits))
+	}
+	// nothing outside the literal may make the calls
+	outside := false
+	ast.Inspect(fd.Body, func(n ast.Node) bool {
+		if n == lits[0] {
+			return false
+		}
+		if e, ok := n.(ast.Expr); ok {
+			if _, ok := relevantCall(e); ok {
+				outside = true
+			}
+		}
+		return true
+	})
+	if outside {
+		return fmt.Errorf("rowexec buildKill: ProcessList/KillConnection call outside the iterator body")
+	}
+	var b strings.Builder
+	b.WriteString("def killStmtCalls : List (String × List String) := [")
+	for i, kt := range kts {
+		ev := &killStmtEval{src: ts, kt: kt}
+		if _, err := ev.stmts(lits[0].Body.List); err != nil {
+			return err
+		}
+		if i > 0 {
+			b.WriteString(", ")
+		}
+		fmt.Fprintf(&b, "(%s, %s)", hx.LeanString(kt), leanStrList(ev.calls))
+	}
+	b.WriteString("]\n")
+	lf.Raw(b.String())
+
+	// planbuilder: Kill.Connection -> kill type
+	ps, err := hx.ParseSrc(a.Repo, "sql/planbuilder/process.go")
+	if err != nil {
+		return err
+	}
+	pf, err := ps.Func("Builder", "buildKill")
+	if err != nil {
+		return err
+	}
+	onTrue, onFalse := "", ""
+	newKillType := func(n ast.Node) string {
+		res := ""
+		if n == nil {
+			return res
+		}
+		ast.Inspect(n, func(x ast.Node) bool {
+			if ce, ok := x.(*ast.CallExpr); ok && selText(ce.Fun) == "plan.NewKill" && len(ce.Args) == 2 {
+				res = strings.TrimPrefix(selText(ce.Args[0]), "plan.KillType_")
+			}
+			return true
+		})
+		return res
+	}
+	nIf := 0
+	ast.Inspect(pf.Body, func(n ast.Node) bool {
+		if is, ok := n.(*ast.IfStmt); ok && selText(is.Cond) == "kill.Connection" {
+			nIf++
+			onTrue, onFalse = newKillType(is.Body), newKillType(is.Else)
+		}
+		return true
+	})
+	if nIf != 1 || onTrue == "" || onFalse == "" {
+		return fmt.Errorf("planbuilder buildKill: expected `if kill.Connection { …plan.NewKill(plan.KillType_X, …) } else { … }`")
+	}
+	lf.Raw(fmt.Sprintf("def killPlanTypes : List (Bool × String) := [(true, %s), (false, %s)]\n", hx.LeanString(onTrue), hx.LeanString(onFalse)))
+
+	// plan.AddTrackedRowIter: the ProcessList calls of the iterator's onDone func
+	qs, err := hx.ParseSrc(a.Repo, "sql/plan/process.go")
+	if err != nil {
+		return err
+	}
+	af, err := qs.Func("", "AddTrackedRowIter")
+	if err != nil {
+		return err
+	}
+	var done []string
+	ast.Inspect(af.Body, func(n ast.Node) bool {
+		if e, ok := n.(ast.Expr); ok {
+			if name, ok := relevantCall(e); ok {
+				done = append(done, name)
+			}
+		}
+		return true
+	})
+	lf.Raw("def trackedIterDoneCalls : List String := " + leanStrList(done) + "\n")
+	// rowexec.FinalizeIters still wraps every statement's iterator with it
+	bs, err := hx.ParseSrc(a.Repo, "sql/rowexec/builder.go")
+	if err != nil {
+		return err
+	}
+	ff, err := bs.Func("", "FinalizeIters")
+	if err != nil {
+		return err
+	}
+	lf.DefBool("finalizeItersAddsTrackedIter", strings.Contains(bs.Text(ff.Body), "plan.AddTrackedRowIter(ctx, analyzed, iter)"))
+	return nil
 }
 
 // ---------------------------------------------------------------------------------------------
 // Events and the real code.
 
+// ev is one call. The first eight kinds are methods of ProcessList called directly. The SQL kinds are
+// statements executed through the real engine (parser, planbuilder, analyzer, rowexec) by connection c
+// as its query number pid, with ctx.ProcessList = the world's ProcessList and a recording
+// Services.KillConnection:
+//
+//	kq  KILL QUERY t        kc  KILL CONNECTION t        kd  KILL t        show  SHOW PROCESSLIST
+//
+// Draining and closing the statement's iterator makes the engine call EndQuery(ctx) itself
+// (plan.TrackedRowIter), which is part of the modelled effect.
 type ev struct {
-	k   string // add ready rm bq eq bo eo kill
+	k   string // add ready rm bq eq bo eo kill | kq kc kd show
 	c   uint32
 	pid uint64
+	t   uint32 // target of a KILL statement
 }
 
+func (e ev) isSQL() bool { return e.k == "kq" || e.k == "kc" || e.k == "kd" || e.k == "show" }
+
 func (e ev) String() string {
-	if e.k == "bq" || e.k == "eq" {
+	switch e.k {
+	case "bq", "eq", "show":
 		return fmt.Sprintf("(%s %d %d)", e.k, e.c, e.pid)
+	case "kq", "kc", "kd":
+		return fmt.Sprintf("(%s %d %d %d)", e.k, e.c, e.pid, e.t)
 	}
 	return fmt.Sprintf("(%s %d)", e.k, e.c)
+}
+
+// touches: the connections a call may legitimately cancel work of.
+func (e ev) touches(c uint32) bool {
+	if e.c == c {
+		return true
+	}
+	return (e.k == "kq" || e.k == "kc" || e.k == "kd") && e.t == c
+}
+
+// lowered is the sequence of direct ProcessList calls the Spec equates an SQL statement with
+// (Lean: Gms.ProcList.lower): KILL [QUERY|CONNECTION] t = Kill(t) and then the engine's EndQuery of the
+// statement itself; SHOW PROCESSLIST = that EndQuery only.
+func lowered(es []ev) (out []ev, closed []uint32) {
+	for _, e := range es {
+		switch e.k {
+		case "kq", "kc", "kd":
+			out = append(out, ev{k: "kill", c: e.t}, ev{k: "eq", c: e.c, pid: e.pid})
+			if e.k != "kq" {
+				closed = append(closed, e.t)
+			}
+		case "show":
+			out = append(out, ev{k: "eq", c: e.c, pid: e.pid})
+		default:
+			out = append(out, e)
+		}
+	}
+	return out, closed
 }
 
 func histPayload(kind string, es []ev) string {
@@ -278,10 +640,119 @@ type world struct {
 	toks     []*sql.Context // contexts handed out by BeginQuery/BeginOperation, in order of creation
 	tokConn  []uint32
 	c0, r0   uint64
+	closed   []uint32 // connection ids handed to Services.KillConnection, in order
+	services sql.Services
 }
 
 func newWorld() *world {
-	return &world{pl: sqle.NewProcessList(), sess: map[uint32]sql.Session{}, c0: counter("Threads_connected"), r0: counter("Threads_running")}
+	w := &world{pl: sqle.NewProcessList(), sess: map[uint32]sql.Session{}, c0: counter("Threads_connected"), r0: counter("Threads_running")}
+	// what the server's SessionManager.KillConnection does is close the network connection; the
+	// process-list entry goes away later, when the connection's handler loop unwinds (RemoveConnection
+	// is a separate call of the history). Here the request is only recorded.
+	w.services = sql.Services{KillConnection: func(id uint32) error {
+		w.mu.Lock()
+		defer w.mu.Unlock()
+		w.closed = append(w.closed, id)
+		return nil
+	}}
+	return w
+}
+
+// ctxFor builds the context of a call made by connection c (as query pid), the way the server's
+// SessionManager.NewContext does: ProcessList and Services travel with the context.
+func (w *world) ctxFor(c uint32, pid uint64) *sql.Context {
+	return sql.NewContext(context.Background(), sql.WithSession(w.session(c)), sql.WithPid(pid),
+		sql.WithProcessList(w.pl), sql.WithServices(w.services))
+}
+
+// the engine SQL statements run on; its own ProcessList is not used (the context carries the world's).
+var (
+	sqlEngineOnce sync.Once
+	sqlEngine     *sqle.Engine
+)
+
+func engine() *sqle.Engine {
+	sqlEngineOnce.Do(func() {
+		sqlEngine = sqle.NewDefault(memory.NewDBProvider(memory.NewDatabase("d")))
+	})
+	return sqlEngine
+}
+
+// runSQL executes one statement through the engine on ctx, drains and closes the iterator.
+// Result alphabet: "d" = one OkResult row; "w[rows]" = result set of SHOW PROCESSLIST reduced to
+// Id:Command:State:Info; "E…" = error.
+func (w *world) runSQL(ctx *sql.Context, q string, show bool) string {
+	_, iter, _, err := engine().Query(ctx, q)
+	if err != nil {
+		return "E:" + hx.OneLine(err.Error())
+	}
+	var rows []sql.Row
+	for {
+		r, err := iter.Next(ctx)
+		if err == io.EOF {
+			break
+		}
+		if err != nil {
+			iter.Close(ctx)
+			return "E:" + hx.OneLine(err.Error())
+		}
+		rows = append(rows, r)
+	}
+	if err := iter.Close(ctx); err != nil {
+		return "E:close:" + hx.OneLine(err.Error())
+	}
+	if !show {
+		if len(rows) == 1 && len(rows[0]) == 1 {
+			if _, ok := rows[0][0].(types.OkResult); ok {
+				return "d"
+			}
+		}
+		return fmt.Sprintf("E:rows:%v", rows)
+	}
+	type prow struct {
+		id int64
+		s  string
+	}
+	var ps []prow
+	for _, r := range rows {
+		if len(r) != 8 {
+			return fmt.Sprintf("E:row:%v", r)
+		}
+		id, _ := r[0].(int64)
+		cmd := fmt.Sprint(r[4])
+		switch cmd {
+		case "Connect":
+			cmd = "C"
+		case "Sleep":
+			cmd = "S"
+		case "Query":
+			cmd = "Q"
+		default:
+			cmd = "?" + cmd
+		}
+		st := fmt.Sprint(r[6])
+		switch st {
+		case "":
+			st = "-"
+		case "running":
+			st = "r"
+		default:
+			st = "?" + hx.OneLine(st)
+		}
+		info := fmt.Sprint(r[7])
+		if info == "" {
+			info = "-"
+		} else {
+			info = strings.TrimPrefix(info, "q")
+		}
+		ps = append(ps, prow{id, fmt.Sprintf("%d:%s:%s:%s", id, cmd, st, info)})
+	}
+	sort.Slice(ps, func(i, j int) bool { return ps[i].id < ps[j].id })
+	parts := make([]string, len(ps))
+	for i, p := range ps {
+		parts[i] = p.s
+	}
+	return "w[" + strings.Join(parts, ",") + "]"
 }
 
 func (w *world) session(c uint32) sql.Session {
@@ -328,7 +799,7 @@ func (w *world) apply(e ev, seqTok bool) string {
 		case "rm":
 			w.pl.RemoveConnection(e.c)
 		case "bq":
-			ctx := sql.NewContext(context.Background(), sql.WithSession(w.session(e.c)), sql.WithPid(e.pid))
+			ctx := w.ctxFor(e.c, e.pid)
 			n, err := w.pl.BeginQuery(ctx, fmt.Sprintf("q%d", e.pid))
 			if err != nil {
 				res = errClass(err)
@@ -340,11 +811,9 @@ func (w *world) apply(e ev, seqTok bool) string {
 				}
 			}
 		case "eq":
-			ctx := sql.NewContext(context.Background(), sql.WithSession(w.session(e.c)), sql.WithPid(e.pid))
-			w.pl.EndQuery(ctx)
+			w.pl.EndQuery(w.ctxFor(e.c, e.pid))
 		case "bo":
-			ctx := sql.NewContext(context.Background(), sql.WithSession(w.session(e.c)))
-			n, err := w.pl.BeginOperation(ctx)
+			n, err := w.pl.BeginOperation(w.ctxFor(e.c, 0))
 			if err != nil {
 				res = errClass(err)
 			} else {
@@ -355,10 +824,17 @@ func (w *world) apply(e ev, seqTok bool) string {
 				}
 			}
 		case "eo":
-			ctx := sql.NewContext(context.Background(), sql.WithSession(w.session(e.c)))
-			w.pl.EndOperation(ctx)
+			w.pl.EndOperation(w.ctxFor(e.c, 0))
 		case "kill":
 			w.pl.Kill(e.c)
+		case "kq":
+			res = w.runSQL(w.ctxFor(e.c, e.pid), fmt.Sprintf("KILL QUERY %d", e.t), false)
+		case "kc":
+			res = w.runSQL(w.ctxFor(e.c, e.pid), fmt.Sprintf("KILL CONNECTION %d", e.t), false)
+		case "kd":
+			res = w.runSQL(w.ctxFor(e.c, e.pid), fmt.Sprintf("KILL %d", e.t), false)
+		case "show":
+			res = w.runSQL(w.ctxFor(e.c, e.pid), "SHOW PROCESSLIST", true)
 		default:
 			panic("harness: unknown event " + e.k)
 		}
@@ -377,6 +853,7 @@ type snap struct {
 	procs              []sql.Process
 	byPid              map[uint64]uint32
 	cancelled          []int
+	closed             []uint32
 }
 
 func (w *world) snapshot() snap {
@@ -389,6 +866,9 @@ func (w *world) snapshot() snap {
 			s.cancelled = append(s.cancelled, i)
 		}
 	}
+	w.mu.Lock()
+	s.closed = append([]uint32(nil), w.closed...)
+	w.mu.Unlock()
 	return s
 }
 
@@ -431,7 +911,11 @@ func (s snap) full() string {
 	for i, c := range s.cancelled {
 		cs[i] = strconv.Itoa(c)
 	}
-	return s.quiet() + "|" + strings.Join(cs, ",")
+	ks := make([]string, len(s.closed))
+	for i, c := range s.closed {
+		ks[i] = strconv.FormatUint(uint64(c), 10)
+	}
+	return s.quiet() + "|" + strings.Join(cs, ",") + "|" + strings.Join(ks, ",")
 }
 
 // consistent is the property's state part evaluated on the real code alone: counters = counts,
@@ -466,36 +950,77 @@ func (s snap) consistentTag() (string, string) {
 	return "", ""
 }
 
-// runSeq: one goroutine, observation after every call. Returns the observation, the first
-// consistency failure and the first cancellation failure (model-free oracles).
-func runSeq(es []ev) (obs string, inconsistent string, incTag string, badCancel string) {
+// seqResult is what one sequential run yields: the observation and the model-free oracles.
+type seqResult struct {
+	obs          string
+	inconsistent string // first failure of the state part (counters = counts, pid index = owners)
+	incTag       string
+	badCancel    string // first cancellation of a context the call had no business with
+	final        snap
+	anyCancelled bool
+}
+
+// runSeq: one goroutine, observation after every call.
+func runSeq(es []ev) seqResult {
 	w := newWorld()
+	var res seqResult
 	var parts []string
 	prevCancelled := map[int]bool{}
 	for i, e := range es {
 		nTok := len(w.toks)
 		r := w.apply(e, true)
 		s := w.snapshot()
+		res.final = s
 		parts = append(parts, r+"|"+s.full())
-		if inconsistent == "" && r != "X" {
+		if res.inconsistent == "" && r != "X" {
 			if m, tag := s.consistentTag(); m != "" {
-				inconsistent, incTag = fmt.Sprintf("after call %d %s: %s", i+1, e, m), tag
+				res.inconsistent, res.incTag = fmt.Sprintf("after call %d %s: %s", i+1, e, m), tag
 			}
 		}
 		for _, t := range s.cancelled {
 			if !prevCancelled[t] {
 				prevCancelled[t] = true
-				if badCancel == "" {
+				res.anyCancelled = true
+				if res.badCancel == "" {
 					if t >= nTok {
-						badCancel = fmt.Sprintf("call %d %s returned context #%d already cancelled", i+1, e, t)
-					} else if w.tokConn[t] != e.c {
-						badCancel = fmt.Sprintf("call %d %s cancelled context #%d which belongs to connection %d", i+1, e, t, w.tokConn[t])
+						res.badCancel = fmt.Sprintf("call %d %s returned context #%d already cancelled", i+1, e, t)
+					} else if !e.touches(w.tokConn[t]) {
+						res.badCancel = fmt.Sprintf("call %d %s cancelled context #%d which belongs to connection %d", i+1, e, t, w.tokConn[t])
 					}
 				}
 			}
 		}
 	}
-	return strings.Join(parts, ";"), inconsistent, incTag, badCancel
+	res.obs = strings.Join(parts, ";")
+	return res
+}
+
+// sqlOracle is the model-free oracle of the SQL layer: a history with KILL / SHOW PROCESSLIST
+// statements must leave the ProcessList, the counters and every handed-out context exactly as the
+// same history with each statement replaced by the direct calls it stands for (lowered), and the
+// connections it asked the server to close must be exactly the targets of its KILL CONNECTION / KILL
+// statements, in order. Both worlds run the real code, so a listed defect of ProcessList shows up on
+// both sides and cancels out.
+func sqlOracle(es []ev, got snap) string {
+	low, wantClosed := lowered(es)
+	ref := runSeq(low).final
+	gs, rs := got.quiet()+"|"+cancStr(got.cancelled), ref.quiet()+"|"+cancStr(ref.cancelled)
+	if gs != rs {
+		return fmt.Sprintf("with the statements executed through the engine the final state is %s, with the direct calls %s it is %s",
+			gs, histPayload("seq", low), rs)
+	}
+	if fmt.Sprint(got.closed) != fmt.Sprint(wantClosed) {
+		return fmt.Sprintf("Services.KillConnection was called for %v, the KILL CONNECTION statements name %v", got.closed, wantClosed)
+	}
+	return ""
+}
+
+func cancStr(c []int) string {
+	cs := make([]string, len(c))
+	for i, t := range c {
+		cs[i] = strconv.Itoa(t)
+	}
+	return strings.Join(cs, ",")
 }
 
 // runConc: one goroutine per stream plus a killer and a reader; observation at quiescence.
@@ -517,8 +1042,17 @@ func runConc(streams [][]ev, kills []uint32) (obs string, inconsistent string, n
 	go func() {
 		defer wg.Done()
 		<-start
-		for _, c := range kills {
-			w.pl.Kill(c)
+		// the killer is an administrative connection that is not in the list: direct Kill, KILL QUERY and
+		// KILL CONNECTION through the engine in turn
+		for j, c := range kills {
+			switch j % 3 {
+			case 0:
+				w.pl.Kill(c)
+			case 1:
+				hx.Safe(func() { w.runSQL(w.ctxFor(4000000000, 0), fmt.Sprintf("KILL QUERY %d", c), false) })
+			case 2:
+				hx.Safe(func() { w.runSQL(w.ctxFor(4000000000, 0), fmt.Sprintf("KILL CONNECTION %d", c), false) })
+			}
 		}
 	}()
 	go func() {
@@ -643,8 +1177,57 @@ func (g *gen) next() ev {
 			if !st.present && g.r.Chance(1, 4) {
 				return ev{k: "rm", c: c}
 			}
+		case 13:
+			// the connection's running query is a KILL / SHOW PROCESSLIST statement executed through the
+			// engine; closing its iterator is the handler's first EndQuery (the deferred second one may follow)
+			if st.present && st.work == 1 {
+				pid := st.pid
+				st.work, st.lastPid, st.pid = 0, pid, 0
+				delete(g.used, pid)
+				return g.sqlStmt(c, pid)
+			}
 		}
 	}
+}
+
+// sqlStmt: a statement issued by connection c as its query pid. Targets: any connection of the
+// history (itself included), sometimes an unknown id.
+func (g *gen) sqlStmt(c uint32, pid uint64) ev {
+	k := hx.Pick(g.r, []string{"kq", "kq", "kq", "kc", "kc", "kc", "kd", "kd", "show", "show"})
+	if k == "show" {
+		return ev{k: k, c: c, pid: pid}
+	}
+	t := hx.Pick(g.r, g.ids)
+	if g.r.Chance(1, 8) {
+		t += 100
+	}
+	return ev{k: k, c: c, pid: pid, t: t}
+}
+
+// busyTargetKill: connection c (running query pid) kills a connection that has work registered, if
+// there is one: the case in which a KILL statement has something to cancel.
+func (g *gen) busyTargetKill() (ev, bool) {
+	for try := 0; try < 20; try++ {
+		c := hx.Pick(g.r, g.ids)
+		st := g.conns[c]
+		if !(st.present && st.work == 1) {
+			continue
+		}
+		var busy []uint32
+		for _, t := range g.ids {
+			if t != c && g.conns[t].present && g.conns[t].work != 0 {
+				busy = append(busy, t)
+			}
+		}
+		if len(busy) == 0 {
+			continue
+		}
+		pid := st.pid
+		st.work, st.lastPid, st.pid = 0, pid, 0
+		delete(g.used, pid)
+		return ev{k: hx.Pick(g.r, []string{"kq", "kc", "kd"}), c: c, pid: pid, t: hx.Pick(g.r, busy)}, true
+	}
+	return ev{}, false
 }
 
 // beginQueryErrorCall returns a BeginQuery on connection c that takes one of its two error returns
@@ -704,7 +1287,11 @@ func (g *gen) regionCall() (ev, bool) {
 func randomCall(r *hx.Rand, nconn int, npid int) ev {
 	c := uint32(r.Range(1, nconn))
 	pid := uint64(r.Intn(npid + 1))
-	return ev{k: hx.Pick(r, []string{"add", "ready", "rm", "bq", "bq", "eq", "eq", "bo", "eo", "kill"}), c: c, pid: pid}
+	e := ev{k: hx.Pick(r, []string{"add", "ready", "rm", "bq", "bq", "eq", "eq", "bo", "eo", "kill", "kq", "kc", "kd", "show"}), c: c, pid: pid}
+	if e.isSQL() && e.k != "show" {
+		e.t = uint32(r.Range(1, nconn))
+	}
+	return e
 }
 
 // ---------------------------------------------------------------------------------------------
@@ -714,24 +1301,45 @@ func run(a hx.RunArgs) error {
 	logrus.SetLevel(logrus.PanicLevel)
 	variables.InitStatusVariables()
 	variables.InitSystemVariables()
+	engine() // built before the first world: creating an engine re-initialises the global status variables
 
 	out := hx.NewOut(a.OutDir)
 	defer out.Close()
 	out.Rule = "call histories on a fresh sqle.ProcessList: (1) witness corpus, (2) every history up to a length bound over 2 connections x pids {0,1}, " +
 		"(3) random histories following the server's calling protocol on 1-4 connections (double EndQuery, error returns of BeginQuery and BeginOperation, KILL of any id), " +
-		"(4) the same with one forced failing BeginQuery (the call class of the repaired defect begin_query_error_path) or one call of a listed defect class, (5) unconstrained random calls, (6) concurrent goroutines, one per connection, plus a killer and a reader. " +
+		"(4) the same with one forced failing BeginQuery (the call class of the repaired defect begin_query_error_path), one call of a listed defect class, or one KILL statement aimed at a connection that has work registered, (5) unconstrained random calls, (6) concurrent goroutines, one per connection, plus a killer and a reader. " +
+		"Calls are the eight ProcessList methods and, since the SQL layer is covered, the statements KILL QUERY n / KILL CONNECTION n / KILL n / SHOW PROCESSLIST executed through the real engine by a connection as its running query " +
+		"(context with this ProcessList and a recording Services.KillConnection; (2b) every history of up to 2 (thorough: 3) direct calls followed by one statement); the list of close requests is part of every observation, " +
+		"and every history with a statement is also compared, on the real code alone, with the history in which each statement is replaced by the direct calls it stands for. " +
 		"A history is non-trivial when a query was registered and a context was cancelled in it"
 	r := hx.NewRand(a.Seed)
 	t0 := time.Now()
 
 	seqCase := func(kind string, es []ev, conformant bool) {
-		obs, inc, incTag, bad := runSeq(es)
-		nontriv := strings.Contains(obs, ":Q:") && !strings.HasSuffix(obs, "|")
+		sr := runSeq(es)
+		obs, inc, incTag, bad := sr.obs, sr.inconsistent, sr.incTag, sr.badCancel
+		nontriv := strings.Contains(obs, ":Q:") && sr.anyCancelled
 		id := out.Case(histPayload("seq", es), obs, nontriv)
 		out.Stat(kind)
 		out.StatN("calls", len(es))
 		if strings.Contains(obs, "X|") {
 			out.Stat("histories-with-crash")
+		}
+		nSQL := 0
+		for _, e := range es {
+			if e.isSQL() {
+				nSQL++
+				out.Stat("sql-statement-" + e.k)
+			}
+		}
+		if nSQL > 0 {
+			out.Stat("histories-with-sql-statement")
+			if len(sr.final.closed) > 0 {
+				out.Stat("histories-with-close-request")
+			}
+			if m := sqlOracle(es, sr.final); m != "" {
+				out.OracleFail(id, "sql_statement_differs_from_direct_calls", m)
+			}
 		}
 		// model-free oracles: the state part only where the harness knows the history follows the
 		// protocol (the region of a listed defect is taken from the model's answer for the case)
@@ -761,9 +1369,28 @@ func run(a hx.RunArgs) error {
 		{{k: "bq", c: 1, pid: 1}, {k: "add", c: 1}, {k: "ready", c: 1}, {k: "add", c: 2}, {k: "ready", c: 2}, {k: "bq", c: 1, pid: 1}, {k: "bq", c: 2, pid: 1},
 			{k: "bq", c: 3, pid: 2}, {k: "eq", c: 1, pid: 1}, {k: "bq", c: 2, pid: 1}, {k: "bq", c: 2, pid: 1}, {k: "eq", c: 2, pid: 1}, {k: "rm", c: 1},
 			{k: "bq", c: 1, pid: 4}, {k: "rm", c: 2}},
+		// 8..: the SQL layer. 8 = Gms.C37.sampleSqlKillConn: KILL CONNECTION of a connection that is running a
+		// query must cancel that query (and ask the server to close exactly that connection)
+		{{k: "add", c: 1}, {k: "ready", c: 1}, {k: "add", c: 2}, {k: "ready", c: 2}, {k: "bq", c: 1, pid: 1}, {k: "bq", c: 2, pid: 2},
+			{k: "kc", c: 1, pid: 1, t: 2}, {k: "eq", c: 1, pid: 1}},
+		// 9 = Gms.C37.sampleSqlHistory: KILL QUERY 2, KILL CONNECTION 3 (busy), KILL 2 (idle by then), SHOW PROCESSLIST, KILL of an unknown id
+		{{k: "add", c: 1}, {k: "ready", c: 1}, {k: "add", c: 2}, {k: "ready", c: 2}, {k: "add", c: 3}, {k: "ready", c: 3}, {k: "add", c: 4}, {k: "ready", c: 4},
+			{k: "bq", c: 2, pid: 1}, {k: "bq", c: 3, pid: 2}, {k: "bq", c: 4, pid: 3},
+			{k: "bq", c: 1, pid: 4}, {k: "kq", c: 1, pid: 4, t: 2}, {k: "eq", c: 1, pid: 4},
+			{k: "bq", c: 1, pid: 5}, {k: "kc", c: 1, pid: 5, t: 3}, {k: "eq", c: 1, pid: 5},
+			{k: "eq", c: 2, pid: 1},
+			{k: "bq", c: 1, pid: 6}, {k: "kd", c: 1, pid: 6, t: 2}, {k: "eq", c: 1, pid: 6},
+			{k: "bq", c: 1, pid: 7}, {k: "show", c: 1, pid: 7}, {k: "eq", c: 1, pid: 7},
+			{k: "bq", c: 1, pid: 8}, {k: "kc", c: 1, pid: 8, t: 77}, {k: "eq", c: 1, pid: 8},
+			{k: "eq", c: 3, pid: 2}, {k: "rm", c: 3}, {k: "eq", c: 4, pid: 3}},
+		// 10: KILL (= KILL CONNECTION) reaches a registered operation; 11: a connection kills itself
+		{{k: "add", c: 1}, {k: "bo", c: 1}, {k: "add", c: 2}, {k: "ready", c: 2}, {k: "bq", c: 2, pid: 5}, {k: "kd", c: 2, pid: 5, t: 1}, {k: "eq", c: 2, pid: 5}, {k: "eo", c: 1}},
+		{{k: "add", c: 1}, {k: "ready", c: 1}, {k: "bq", c: 1, pid: 1}, {k: "kc", c: 1, pid: 1, t: 1}, {k: "eq", c: 1, pid: 1}, {k: "rm", c: 1}},
+		// 12: outside the protocol: a statement run with pid 0 on an idle connection (the engine's EndQuery calls a nil Kill)
+		{{k: "add", c: 1}, {k: "ready", c: 1}, {k: "kc", c: 1, pid: 0, t: 1}},
 	}
 	for i, h := range corpus {
-		seqCase("corpus", h, i == 0 || i == 1 || i == 4 || i == 7)
+		seqCase("corpus", h, i == 0 || i == 1 || i == 4 || i == 7 || (i >= 8 && i <= 11))
 	}
 
 	// (2) exhaustive short histories
@@ -794,6 +1421,31 @@ func run(a hx.RunArgs) error {
 	}
 	enum(nil, maxLen)
 
+	// (2b) every short history of direct calls followed by one SQL statement
+	var sqlAlphabet []ev
+	for c := uint32(1); c <= 2; c++ {
+		for _, pid := range []uint64{1, 0} { // 1 = a query id inside the protocol, 0 = outside (no query id)
+			for t := uint32(1); t <= 2; t++ {
+				sqlAlphabet = append(sqlAlphabet, ev{k: "kq", c: c, pid: pid, t: t}, ev{k: "kc", c: c, pid: pid, t: t})
+			}
+			sqlAlphabet = append(sqlAlphabet, ev{k: "show", c: c, pid: pid})
+		}
+		sqlAlphabet = append(sqlAlphabet, ev{k: "kd", c: c, pid: 1, t: 3 - c})
+	}
+	var enumSQL func(prefix []ev, depth int)
+	enumSQL = func(prefix []ev, depth int) {
+		for _, q := range sqlAlphabet {
+			seqCase("exhaustive+sql-statement", append(append([]ev(nil), prefix...), q), false)
+		}
+		if depth == 0 {
+			return
+		}
+		for _, e := range alphabet {
+			enumSQL(append(prefix, e), depth-1)
+		}
+	}
+	enumSQL(nil, maxLen-1)
+
 	nProto, nRegion, nMisuse, nConc := 2500, 500, 1500, 150
 	if a.Thorough {
 		nProto, nRegion, nMisuse, nConc = 60000, 10000, 30000, 4000
@@ -817,8 +1469,11 @@ func run(a hx.RunArgs) error {
 		es := make([]ev, 0, n)
 		done := false
 		special, kind := g.regionCall, "protocol+defect-class-call"
-		if i%2 == 0 {
+		switch i % 3 {
+		case 0:
 			special, kind = g.errorCall, "protocol+failing-begin-query"
+		case 1:
+			special, kind = g.busyTargetKill, "protocol+kill-statement-on-busy-connection"
 		}
 		for j := 0; j < n; j++ {
 			if j >= at && !done {
